@@ -1,6 +1,9 @@
 package p12
 
-import "os"
+import (
+	"os"
+	"strings"
+)
 
 // Signatures of confirmed, still-open genuine defects found by this package. While a signature is
 // listed (true), the generator sets Case.Steer so that the harness repairs exactly the triggering
@@ -14,15 +17,32 @@ import "os"
 //	1 <= podBatchID <= len(batches). Batch-id "0", or any number larger than the number of batches
 //	(a user-written label, or simply labels of an earlier, longer plan of the same rollout-id after
 //	the release plan was shortened) panics with "index out of range" inside the reconciler.
+//
+// c12-filter-hidden-labelled-overfill:
+//
+//	PatchPodBatchLabel charges already-labelled pods against the batch budgets only if they survive
+//	ctx.FilterFunc. FilterPodsForOrderedUpdate (StatefulSet, rollback in batches) withholds
+//	update-revision pods whose ordinal is below the partition beyond the first `diff` ones; when such
+//	a pod was labelled by an earlier pass (partition moved after a scale-up, or the filter was
+//	installed after the first pass) its label is not charged and further pods receive the same
+//	batch-id: more pods carry (rollout-id, batch i) than batch i adds under the plan.
 var knownOpen = map[string]bool{
-	sigOOR: true,
+	sigOOR:    true,
+	sigHidden: true,
 }
 
 // excl reports whether inputs of the known finding sig are to be steered away from.
-// VERIF_NO_EXCLUDE=1 switches every exclusion off (used to reproduce a finding and to verify a fix).
+// VERIF_NO_EXCLUDE=1 switches every exclusion off, VERIF_NO_EXCLUDE=<sig>[,<sig>] the listed ones
+// (used to reproduce a finding and to verify a fix).
 func excl(sig string) bool {
-	if os.Getenv("VERIF_NO_EXCLUDE") == "1" {
+	if v := os.Getenv("VERIF_NO_EXCLUDE"); v == "1" {
 		return false
+	} else if v != "" {
+		for _, s := range strings.Split(v, ",") {
+			if s == sig {
+				return false
+			}
+		}
 	}
 	return knownOpen[sig]
 }
